@@ -159,6 +159,9 @@ def run(ck, ix, tier):
 
     # ------------------------------------------------------------ (d) predicates are called; muldiv guards
     muldiv_rules(ck, ix)
+    # 0 degC differs from 0 kelvin: zero tests in __eq__ need multiplicative units (shared with C05)
+    from .C05 import eq_zero_rule
+    eq_zero_rule(ck, ix)
 
     # ------------------------------------------------------------ (e) delta twin
     fi = ix.func(NR, "GenericNonMultiplicativeRegistry._add_unit")
